@@ -9,6 +9,7 @@ open Lean Pywbem.Proto Pywbem.Model.Listener
   {"op":"enum", "cfg":CFG, "perSender":int, "starts":int, "pb":int, "limit":int, "skip":int}
   CFG = {"proto":"fixed"|"old","maxQ":int,"ncb":int,"n":int,"http":bool (default true),"https":bool (default false)}
   L   = "start" | "stop" | "main" | "cb" | "cb!" | "s<j>" | "t<j>" (sender j sends its next request to the HTTPS port)
+        | "fail" | "failc" (the server creation start() is about to do fails: OSError / certificate)
 
   run/walk answer {"labels":[…],"pcs":[pcvector after each step],"final":{…}} or {"stuck":i,"label":L}
   (walks are completed by a round-robin phase that ends with the listener stopped).
@@ -18,12 +19,13 @@ open Lean Pywbem.Proto Pywbem.Model.Listener
 
 def labelStr : Label → String
   | .start => "start" | .stop => "stop" | .main => "main"
-  | .cb false => "cb" | .cb true => "cb!" | .snd j => s!"s{j}" | .sndTls j => s!"t{j}"
+  | .cb false => "cb" | .cb true => "cb!" | .snd j => s!"s{j}" | .sndTls j => s!"t{j}" | .failStart => "fail"
 
 def parseLabel (s : String) : Option Label :=
   match s with
   | "start" => some .start | "stop" => some .stop | "main" => some .main
   | "cb" => some (.cb false) | "cb!" => some (.cb true)
+  | "fail" => some .failStart | "failc" => some .failStart
   | _ => if s.startsWith "s" then (s.drop 1).toNat?.map Label.snd
          else if s.startsWith "t" then (s.drop 1).toNat?.map Label.sndTls else none
 
@@ -53,7 +55,7 @@ def finalJson (s : Sys) : Json := Json.mkObj [
   ("ignored", indsJson s.ignored), ("queue", indsJson s.queue),
   ("errs", Json.arr (s.errs.map (fun e => Json.str e.name)).toArray),
   ("qref", s.qref), ("thrRef", s.thrRef), ("srv", s.srv), ("accepting", s.accepting), ("up", s.up),
-  ("srv2", s.srv2), ("accepting2", s.accepting2), ("qfull", s.qfull),
+  ("srv2", s.srv2), ("accepting2", s.accepting2), ("qfull", s.qfull), ("startFails", (s.startFails : Nat)),
   ("fullLog", Json.arr (s.fullLog.map (fun (b : Bool) => Json.bool b)).toArray),
   ("main", mainStr s.main), ("cb", cbStr s.cb),
   ("nexts", Json.arr (s.senders.map (fun sd => (sd.next : Json))).toArray)]
@@ -88,11 +90,13 @@ inductive Tid where
 
 def tidOf : Label → Tid
   | .start => .main | .stop => .main | .main => .main | .cb _ => .cb | .snd j => .snd j | .sndTls j => .snd j
+  | .failStart => .main
 
 structure Budget where
   perSender : Nat
   starts : Nat      -- start() calls still allowed
   extra : Nat := 0  -- stop() calls on a stopped listener still allowed
+  fails : Nat := 0  -- failing server creations still allowed
   deriving Repr
 
 /-- labels a scheduler may pick in state `s` (a step that changes nothing is not offered) -/
@@ -100,7 +104,7 @@ def candidates (c : Cfg) (b : Budget) (s : Sys) (sending : Bool) : List Label :=
   let mainL : List Label :=
     if s.main = .idle then
       (if s.up = false ∧ b.starts > 0 then [Label.start] else []) ++ (if s.up || b.extra > 0 then [Label.stop] else [])
-    else [Label.main]
+    else [Label.main] ++ (if b.fails > 0 && (s.main = .sSrv || s.main = .sSrv2) then [Label.failStart] else [])
   let cbL : List Label := [Label.cb false]
   let sndL : List Label := (List.range s.senders.length).flatMap (fun j =>
     match s.senders[j]? with
@@ -117,6 +121,7 @@ def spend (b : Budget) (l : Label) : Budget :=
   match l with
   | .start => { b with starts := b.starts - 1 }
   | .stop => { b with extra := b.extra - 1 }
+  | .failStart => { b with fails := b.fails - 1 }
   | _ => b
 
 def lcg (x : Nat) : Nat := (x * 6364136223846793005 + 1442695040888963407) % 18446744073709551616
@@ -161,7 +166,7 @@ partial def complete (c : Cfg) (fuel : Nat) (turn : Nat) (s : Sys) (acc : List L
 def answerWalk (j : Json) : Json :=
   let (c, n) := parseCfg j
   let b : Budget := { perSender := (getNat j "perSender").getD 1, starts := (getNat j "starts").getD 1,
-                      extra := (getNat j "extraStops").getD 0 }
+                      extra := (getNat j "extraStops").getD 0, fails := (getNat j "fails").getD 0 }
   let (s1, _, _, acc1) := walk c b ((getNat j "sticky").getD 0) ((getNat j "maxlen").getD 60)
     ((getNat j "seed").getD 1) none (init n) []
   let (_, acc2) := complete c 2000 0 s1 acc1
@@ -197,7 +202,8 @@ partial def enum (c : Cfg) (limit skip : Nat) (pb : Nat) (b : Budget) (last : Op
 
 def answerEnum (j : Json) : Json :=
   let (c, n) := parseCfg j
-  let b : Budget := { perSender := (getNat j "perSender").getD 1, starts := (getNat j "starts").getD 1 }
+  let b : Budget := { perSender := (getNat j "perSender").getD 1, starts := (getNat j "starts").getD 1,
+                      fails := (getNat j "fails").getD 0 }
   let st := enum c ((getNat j "limit").getD 1000) ((getNat j "skip").getD 0) ((getNat j "pb").getD 1) b none
     (init n) [] [init n] {}
   Json.mkObj [
